@@ -31,6 +31,10 @@ type HStep struct {
 	// Join (backend records): written in the same Conn.Write call as the next
 	// backend record of the history (a backend flushing several records at once).
 	Join bool `json:"join,omitempty"`
+	// WSplit > 0 (backend records, sequential histories): the Write that ends
+	// with this record is made in two calls from ONE buffer that the caller
+	// reuses (an io.Copy loop): the second part overwrites the first.
+	WSplit int `json:"wsplit,omitempty"`
 	// SplitAt > 0 (client records, sequential histories): the record arrives in
 	// two parts; between them the caller's read deadline expires (a timeout
 	// error from the transport), the caller extends it and reads on.
@@ -579,6 +583,35 @@ func runHistory(prop string, seed uint64, p *HistoryPlan, b *built, io_ *histIO,
 					res.Probe("write_returns_after_next_read")
 				}
 				slowFirst = false
+				if st.WSplit > 0 && !p.Concurrent && len(pendingW) > 1 && !slowFirst {
+					// the forwarder's buffer is reused between the two calls
+					k := 1 + st.WSplit%(len(pendingW)-1)
+					scratch := make([]byte, len(pendingW))
+					copy(scratch, pendingW[:k])
+					n1, e1 := io_.write(scratch[:k])
+					if *io_.pk == "" && e1 == nil && n1 == k {
+						copy(scratch, pendingW[k:])
+						n2, e2 := io_.write(scratch[:len(pendingW)-k])
+						res.Probe("backend_write_in_two_calls_one_buffer")
+						if *io_.pk == "" && (e2 != nil || n2 != len(pendingW)-k) {
+							fail("history", "Conn.Write of the rest of a backend "+st.Kind+" record failed", "step %d: split at %d of %d: n=%d err=%v", i, k, len(pendingW), n2, e2)
+							break
+						}
+					} else if *io_.pk == "" {
+						fail("history", "Conn.Write of the first part of a backend "+st.Kind+" record failed", "step %d: split at %d of %d: n=%d err=%v", i, k, len(pendingW), n1, e1)
+						break
+					}
+					if *io_.pk != "" {
+						fail("panic", *io_.pk, "step %d: Write %s in two calls", i, st.Kind)
+						break
+					}
+					if got := io_.out()[outLen:]; !bytes.Equal(got, pendingW) {
+						fail("history", "backend "+st.Kind+" record not forwarded unchanged", "step %d: written in two calls from one buffer (split at %d): client received %d bytes, records have %d", i, k, len(got), len(pendingW))
+						break
+					}
+					pendingW = nil
+					goto flushed
+				}
 				wn, werr := io_.write(pendingW)
 				if *io_.pk != "" {
 					fail("panic", *io_.pk, "step %d: Write %s", i, st.Kind)
@@ -594,6 +627,7 @@ func runHistory(prop string, seed uint64, p *HistoryPlan, b *built, io_ *histIO,
 				}
 				pendingW = nil
 			}
+		flushed:
 			if flush {
 				outLen = len(io_.out())
 			}
@@ -692,12 +726,6 @@ func runHistory(prop string, seed uint64, p *HistoryPlan, b *built, io_ *histIO,
 			fail("panic", *io_.pk, "step %d: Read %s", i, st.Kind)
 			break
 		}
-		if isHello && processed && hrrCount >= 2 && rerr == nil && bytes.Equal(got, rec) {
-			// two HelloRetryRequests: the statement does not say whether the
-			// hello is still a retry; leaving it untouched is accepted too
-			res.Probe("double_hrr_lenient")
-			continue
-		}
 		if expectAbort != nil {
 			checkAbort(res, prop, "retried hello ("+st.Kind+")", rerr, io_.out()[outLen:], io_.closes(), got, expectAbort)
 			log = append(log, fmt.Sprintf("c %s abort %v", st.Kind, rerr))
@@ -759,6 +787,9 @@ func genC06(seed uint64, idx int) *Plan {
 				st.Kind = "hrr"
 			}
 			st.SlowReturn = h.Concurrent && r.IntN(2) == 0
+			if !h.Concurrent && r.IntN(4) == 0 {
+				st.WSplit = 1 + r.IntN(1<<16)
+			}
 		} else {
 			st = HStep{Side: "c", Kind: cKinds[r.IntN(len(cKinds))], A: r.IntN(1 << 20), RealCtx: r.IntN(2) == 0}
 			if !h.Concurrent && r.IntN(6) == 0 {
